@@ -45,7 +45,8 @@ class WebsocketSession(object):
     def __init__(self, websocket):
         self.websocket = websocket
         self._address = (websocket.host, websocket.port)
-        self._lock = threading.Lock()
+        # Re-entrant: send_compressed holds it around compress + write
+        self._lock = threading.RLock()
         self._sock = None
         self._poll_start = None
         self._next_ping = None
@@ -116,10 +117,21 @@ class WebsocketSession(object):
         self.write(frame.to_bytes(), close=frame.is_close)
         log.debug(' SRV <- CLI : %r', frame)
 
-    def send_compressed(self, opcode, data):
-        """Send a compressed WS Frame."""
-        frame = Frame(opcode, payload=bytearray(data), rsv1=1)
-        self.write(frame.to_bytes())
+    def send_compressed(self, opcode, data, compression=None):
+        """Send a compressed WS Frame.
+
+        If a `compression` object is given, `data` is compressed with
+        it here, under the write lock. With context takeover a message
+        can only be inflated after the messages that were deflated
+        before it, so messages must be written in the order in which
+        they went through the (shared) compression context.
+
+        """
+        with self._lock:
+            if compression is not None:
+                data = compression.compress(data)
+            frame = Frame(opcode, payload=bytearray(data), rsv1=1)
+            self.write(frame.to_bytes())
         log.debug(' SRV <- CLI : %r', frame)
 
     @classmethod
